@@ -60,13 +60,28 @@ def build_object(d, frame, unix_time=100):
     from perception_eval.common.shape import Shape, ShapeType
 
     lab = Label(_label_enum(d.get("family", "autoware"), d["label"]), d["name"], list(d.get("attrs", [])))
+    frame = d.get("frame", frame)            # optional per-object frame (lists of mixed frame)
     if frame == "cam":
-        return DynamicObject2D(unix_time, FrameID.CAM_FRONT, d["conf"], lab, roi=tuple(d.get("roi", (0, 0, 10, 10))), uuid=d.get("uuid"))
+        kw = {} if d.get("pos") is None else {"position": _pos_rep(d["pos"], d.get("pos_rep"))}     # optional 3D position of a 2D object
+        return DynamicObject2D(unix_time, FrameID.CAM_FRONT, d["conf"], lab, roi=tuple(d.get("roi", (0, 0, 10, 10))), uuid=d.get("uuid"), **kw)
     fid = FrameID.BASE_LINK if frame == "base_link" else FrameID.MAP
     q = d.get("quat", [1.0, 0.0, 0.0, 0.0])
     return DynamicObject(
-        unix_time, fid, tuple(d["pos"]), Quaternion(q), Shape(ShapeType.BOUNDING_BOX, tuple(d.get("size", (2.0, 1.0, 1.0)))),
+        unix_time, fid, _pos_rep(d["pos"], d.get("pos_rep")), Quaternion(q), Shape(ShapeType.BOUNDING_BOX, tuple(d.get("size", (2.0, 1.0, 1.0)))),
         (0.0, 0.0, 0.0), d["conf"], lab, pointcloud_num=d.get("pts"), uuid=d.get("uuid"))
+
+
+def _pos_rep(pos, rep=None):
+    """the position in another representation (optional spec key "pos_rep"): tuple of floats (default), list, numpy array, Python ints when integral"""
+    if rep == "list":
+        return [float(v) for v in pos]
+    if rep == "ndarray":
+        import numpy as np
+
+        return np.array([float(v) for v in pos])
+    if rep == "int" and all(float(v).is_integer() for v in pos):
+        return tuple(int(v) for v in pos)
+    return tuple(pos)
 
 
 def build_transforms(tf, warmed=True):
@@ -79,6 +94,10 @@ def build_transforms(tf, warmed=True):
     if tf.get("empty"):
         return TransformDict()
     real = HomogeneousMatrix(tuple(tf["pos"]), tuple(tf["quat"]), src=FrameID.BASE_LINK, dst=FrameID.MAP)
+    if tf.get("cam") is not None:
+        # optional: the camera pose in the ego frame (CAM_FRONT -> BASE_LINK), needed by 2D objects that carry a 3D position
+        cam = HomogeneousMatrix(tuple(tf["cam"]["pos"]), tuple(tf["cam"]["quat"]), src=FrameID.CAM_FRONT, dst=FrameID.BASE_LINK)
+        return TransformDict([real, cam])
     if warmed and (int(abs(tf["pos"][0]) * 8) + int(abs(tf["pos"][1]) * 8)) % 2 == 1:
         # a registry that has ALREADY served another ego pose (both directions queried) and is then updated in place, as
         # interpolate_ground_truth_frames does with the deep-copied frame's transforms: only the current entry may count
@@ -91,7 +110,11 @@ def build_transforms(tf, warmed=True):
     return TransformDict(real)
 
 
-def build_cfg_kwargs(cfg):
+def build_cfg_kwargs(cfg, rep=None):
+    """rep (optional): {"bounds": "tuple" | "ndarray" | "int", "ignore": "tuple", "extra": True} -- the same parameters in other REPRESENTATIONS:
+    per-label bound lists as tuples / numpy arrays / with Python ints where integral, the ignore list as a tuple, and the manager's extra
+    keys (max_matchable_radii, uuid_matching_first) that the filters swallow through **kwargs"""
+    rep = rep or {}
     out = {}
     if cfg.get("targets") is not None:
         out["target_labels"] = [_label_enum(f, v) for f, v in cfg["targets"]]
@@ -100,6 +123,20 @@ def build_cfg_kwargs(cfg):
                    ("conf", "confidence_threshold_list"), ("uuids", "target_uuids")):
         if cfg.get(js) is not None:
             out[kw] = list(cfg[js])
+            if js in ("max_x", "max_y", "max_dist", "min_dist", "conf") and rep.get("bounds"):
+                if rep["bounds"] == "tuple":
+                    out[kw] = tuple(out[kw])
+                elif rep["bounds"] == "ndarray":
+                    import numpy as np
+
+                    out[kw] = np.array(out[kw], dtype=float)
+                elif rep["bounds"] == "int":
+                    out[kw] = [int(v) if float(v).is_integer() else v for v in out[kw]]
+            if js == "ignore" and rep.get("ignore") == "tuple":
+                out[kw] = tuple(out[kw])
+    if rep.get("extra"):
+        out["max_matchable_radii"] = [2.5] * len(cfg.get("targets") or [1])
+        out["uuid_matching_first"] = False
     return out
 
 
@@ -126,6 +163,14 @@ def object_facts(o, transforms):
         "name": lab.name, "attrs": list(lab.attributes), "conf": float(o.semantic_score), "uuid": o.uuid,
         "base": bool(base), "pos": pos, "pts": getattr(o, "pointcloud_num", None),
     }
+
+
+def registry_fingerprint(transforms):
+    """the registered transforms, by value (None when no registry is passed)"""
+    if transforms is None:
+        return None
+    return sorted((str(k), m.matrix.tobytes(), tuple(float(v) for v in m.position), tuple(float(v) for v in m.rotation.elements))
+                  for k, m in transforms.items())
 
 
 def fingerprint(objs):
@@ -240,6 +285,17 @@ EGO_POSES = [
     {"pos": [1000.125, 2000.5, -3.0], "quat": [0.8, 0.0, 0.0, -0.6]},
     {"pos": [64.0, 64.0, 0.0], "quat": [0.28, 0.0, 0.0, 0.96]},
 ]
+# ego poses with roll / pitch (rational unit quaternions); C10's own streams use EGO_POSES + EGO_POSES_TILTED (EGO_POSES itself is shared
+# with other checks and stays as it is)
+EGO_POSES_TILTED = [
+    {"pos": [20.0, -7.5, 2.0], "quat": [0.5, 0.5, 0.5, 0.5]},
+    {"pos": [-40.25, 12.0, 1.5], "quat": [0.8, 0.6, 0.0, 0.0]},                   # roll
+    {"pos": [5.0, 9.5, -1.0], "quat": [0.8, 0.0, 0.6, 0.0]},                      # pitch
+    {"pos": [300.0, -120.5, 4.0], "quat": [0.36, 0.48, 0.0, 0.8]},                # roll and yaw
+]
+ALL_POSES = EGO_POSES + EGO_POSES_TILTED
+# the camera in the ego frame (CAM_FRONT -> BASE_LINK): optical axes (z forward, x right, y down), an exact signed permutation
+CAM_POSE = {"pos": [1.5, 0.0, 1.25], "quat": [0.5, -0.5, 0.5, -0.5]}
 TARGET_POOL = [("autoware", "car"), ("autoware", "bus"), ("autoware", "pedestrian"), ("autoware", "bicycle"),
                ("autoware", "unknown"), ("autoware", "motorbike")]
 OBJ_LABELS = ["car", "car", "bus", "pedestrian", "bicycle", "unknown", "unknown", "false_positive", "truck", "motorbike"]
@@ -250,8 +306,18 @@ def lat(rng, lo, hi):
     return rng.randint(int(lo * 8), int(hi * 8)) / 8.0
 
 
-def gen_obj(rng, frame, ego, is_gt, family="autoware"):
-    """An object placed at a lattice point of the EGO frame (mapped into the map frame by the pose)."""
+def ego_to_cam(cam, p):
+    """ego-frame point -> CAM_FRONT coordinates for the camera pose `cam` (inverse of CAM_FRONT -> BASE_LINK)"""
+    from pyquaternion import Quaternion
+    import numpy as np
+
+    v = Quaternion(cam["quat"]).inverse.rotate(np.array(p, dtype=float) - np.array(cam["pos"], dtype=float))
+    return [float(x) for x in v]
+
+
+def gen_obj(rng, frame, ego, is_gt, family="autoware", cam=None):
+    """An object placed at a lattice point of the EGO frame (mapped into the map frame by the pose; cam (optional): a 2D object that
+    carries that point as its 3D position, expressed in the camera frame)."""
     if family == "autoware":
         lab = rng.choice(OBJ_LABELS)
     else:
@@ -265,6 +331,10 @@ def gen_obj(rng, frame, ego, is_gt, family="autoware"):
          "uuid": rng.choice(UUIDS + [None]) if is_gt else rng.choice([None, "a", "zz"]),
          "pts": (rng.choice([0, 1, 2, 3, 5, 10]) if rng.random() < 0.95 else None) if is_gt else rng.choice([None, 0, 7])}
     if frame == "cam":
+        if cam is not None:
+            d["pos"] = ego_to_cam(cam, (ex, ey, lat(rng, -1, 1)))
+            d["ego_xy"] = [ex, ey]
+            d["pts"] = None                  # a 2D object has no point count
         return d
     d["pos"] = ego_to_frame(frame, ego, (ex, ey, lat(rng, -1, 1)))
     d["ego_xy"] = [ex, ey]        # the ego-frame coordinates the object was generated at (independent of every getter)
@@ -276,10 +346,13 @@ def facts_vs_generator(specs, facts, frame, tf, who):
     the filter makes) must be the coordinates the objects were GENERATED at in the ego frame."""
     import math
 
-    if frame == "cam" or (frame == "map" and (tf is None or tf.get("empty"))):
+    no_tf = tf is None or tf.get("empty")
+    if (frame == "cam" and (no_tf or tf.get("cam") is None)) or (frame == "map" and no_tf):
         return None          # not ego-relative in these configurations (third branch of the filter)
     for i, (d, f) in enumerate(zip(specs, facts)):
         if d.get("ego_xy") is None or f["pos"] is None:
+            continue
+        if d.get("frame", frame) == "map" and no_tf:
             continue
         ex, ey = d["ego_xy"]
         want = [ex, ey, math.hypot(ex, ey)]
@@ -410,14 +483,25 @@ class FilterObjectsCorr(Corr):
             if fr < 0.4:
                 frame, ego, tf = "base_link", None, rng.choice([None, None, {"empty": True}, EGO_POSES[3]])
             elif fr < 0.85:
-                frame, ego = "map", rng.choice(EGO_POSES)
+                frame, ego = "map", rng.choice(ALL_POSES)         # yaw-only and tilted (roll / pitch) ego poses
                 tf = ego if rng.random() < 0.85 else None        # map frame without transforms: third branch
             else:
-                frame, ego, tf = "cam", None, rng.choice([None, EGO_POSES[1]])
+                frame, ego, tf = "cam", None, rng.choice([None, EGO_POSES[1], dict(EGO_POSES[1], cam=CAM_POSE), dict(EGO_POSES[1], cam=CAM_POSE)])
             is_gt = rng.random() < 0.5
             nobj = rng.choice([0, 1, 2, 3, 5, 8, 12]) if stream != "typical" else rng.randint(3, 14)
             fam = "traffic_light" if stream == "traffic" else "autoware"
-            objs = [gen_obj(rng, frame, ego, is_gt, fam) for _ in range(nobj)]
+            cam = tf.get("cam") if (frame == "cam" and tf) else None
+            objs = [gen_obj(rng, frame, ego, is_gt, fam, cam=cam if rng.random() < 0.8 else None) for _ in range(nobj)]
+            if frame == "map" and tf is not None and rng.random() < 0.25:
+                # a list of MIXED frame: some of the objects are given in the ego frame, at the same kind of lattice points
+                for k, d in enumerate(objs):
+                    if rng.random() < 0.5:
+                        objs[k] = dict(gen_obj(rng, "base_link", None, is_gt, fam), frame="base_link")
+            if rng.random() < 0.3:
+                prep = rng.choice(["list", "ndarray", "int"])
+                for d in objs:
+                    if d.get("pos") is not None and rng.random() < 0.7:
+                        d["pos_rep"] = prep
             if is_gt and stream != "malformed":
                 for d in objs:
                     if d.get("pts") is None and frame != "cam":
@@ -426,9 +510,12 @@ class FilterObjectsCorr(Corr):
             facts = [object_facts(build_object(d, frame), transforms) for d in objs]
             ego_facts = [f for f in facts if f["pos"] is not None and (f["base"] or tf is not None)]
             cfg = gen_cfg(rng, ego_facts, stream)
+            if cam is not None and is_gt:
+                cfg.pop("min_pts", None)          # 2D objects have no point count: a point-count bound is not a configuration for them
             case = {"frame": frame, "tf": tf, "is_gt": is_gt, "objs": objs, "cfg": cfg, "stream": stream}
             if cfg_well_formed(cfg):
                 case["wide"] = widen(rng, cfg)
+            case["rep"] = {"bounds": rng.choice(["tuple", "ndarray", "int", None, None, None]), "ignore": rng.choice(["tuple", None]), "extra": rng.random() < 0.15}
             out.append(case)
         return out
 
@@ -438,9 +525,10 @@ class FilterObjectsCorr(Corr):
         transforms = build_transforms(case["tf"])
         objs = [build_object(d, case["frame"]) for d in case["objs"]]
         facts = [object_facts(o, build_transforms(case["tf"], warmed=False)) for o in objs]     # facts from a FRESH registry
-        kw = build_cfg_kwargs(case["cfg"])
+        kw = build_cfg_kwargs(case["cfg"], case.get("rep"))
         kw_before = repr(kw)
         before = fingerprint(objs)
+        reg_before = registry_fingerprint(transforms)
         ids_before = [id(o) for o in objs]
         index = {id(o): i for i, o in enumerate(objs)}
         obs = {"facts": facts}
@@ -454,9 +542,10 @@ class FilterObjectsCorr(Corr):
         obs["again"] = [index.get(id(o), -1) for o in filter_objects(kept, case["is_gt"], transforms=transforms, **kw)]
         obs["mutated"] = (fingerprint(objs) != before or [id(o) for o in objs] != ids_before or repr(kw) != kw_before
                           or kept is objs)
+        obs["registry_mutated"] = registry_fingerprint(transforms) != reg_before
         if case.get("wide") is not None:
             try:
-                wk = filter_objects(objs, case["is_gt"], transforms=transforms, **build_cfg_kwargs(case["wide"]))
+                wk = filter_objects(objs, case["is_gt"], transforms=transforms, **build_cfg_kwargs(case["wide"], case.get("rep")))
                 obs["wide_kept"] = [index.get(id(o), -1) for o in wk]
             except (TypeError, IndexError) as e:
                 obs["wide_kept"] = {"error": type(e).__name__}
@@ -480,6 +569,8 @@ class FilterObjectsCorr(Corr):
     def oracle(self, case, obs):
         if obs.get("mutated"):
             return "filter_objects mutated its input (objects, list or parameter lists) or returned the input list itself"
+        if obs.get("registry_mutated"):
+            return "filter_objects changed the TransformDict it was given"
         m = facts_vs_generator(case["objs"], obs["facts"], case["frame"], case["tf"], "object")
         if m:
             return m
@@ -529,11 +620,24 @@ class FilterObjectsCorr(Corr):
 
     def distribution(self, cases, obs):
         d = {"frames": {}, "streams": {}, "errors": {}, "n_objects": 0, "n_kept": 0, "on_bound_objects": 0,
-             "mean_mode_objects": 0, "fp_label_objects": 0, "no_position_objects": 0, "with_wide_cfg": 0}
+             "mean_mode_objects": 0, "fp_label_objects": 0, "no_position_objects": 0, "with_wide_cfg": 0,
+             "tilted_ego_pose_cases": 0, "objects_2d_with_3d_position": 0, "mixed_frame_lists": 0, "position_representations": {},
+             "bound_list_representations": {}, "ignore_list_as_tuple": 0, "extra_manager_keys_passed": 0}
         for c, o in zip(cases, obs):
             if "facts" not in o:
                 continue
-            key = c["frame"] + ("+tf" if c["tf"] is not None else "")
+            key = c["frame"] + ("+tf" if c["tf"] is not None else "") + ("+cam" if (c["tf"] or {}).get("cam") else "")
+            d["tilted_ego_pose_cases"] += c["frame"] == "map" and c["tf"] is not None and any(v != 0 for v in c["tf"]["quat"][1:3])
+            d["objects_2d_with_3d_position"] += sum(1 for x in c["objs"] if c["frame"] == "cam" and x.get("pos") is not None)
+            d["mixed_frame_lists"] += len({x.get("frame", c["frame"]) for x in c["objs"]}) > 1
+            for x in c["objs"]:
+                if x.get("pos_rep"):
+                    d["position_representations"][x["pos_rep"]] = d["position_representations"].get(x["pos_rep"], 0) + 1
+            rp = c.get("rep") or {}
+            if rp.get("bounds"):
+                d["bound_list_representations"][rp["bounds"]] = d["bound_list_representations"].get(rp["bounds"], 0) + 1
+            d["ignore_list_as_tuple"] += rp.get("ignore") == "tuple" and c["cfg"].get("ignore") is not None
+            d["extra_manager_keys_passed"] += bool(rp.get("extra"))
             d["frames"][key] = d["frames"].get(key, 0) + 1
             d["streams"][c.get("stream", "regression")] = d["streams"].get(c.get("stream", "regression"), 0) + 1
             if isinstance(o["kept"], dict):
@@ -571,7 +675,7 @@ class FilterResultsCorr(Corr):
             if rng.random() < 0.4:
                 frame, ego, tf = "base_link", None, rng.choice([None, {"empty": True}])
             else:
-                frame, ego = "map", rng.choice(EGO_POSES)
+                frame, ego = "map", rng.choice(ALL_POSES)
                 tf = ego
             ne = rng.choice([0, 1, 2, 4, 6, 9])
             ng = rng.choice([0, 1, 2, 4, 6, 9])
@@ -598,7 +702,11 @@ class FilterResultsCorr(Corr):
             transforms = build_transforms(tf)
             facts = [object_facts(build_object(d, frame), transforms) for d in ests + gts]
             cfg = gen_cfg(rng, [f for f in facts if f["pos"] is not None], stream)
-            out.append({"frame": frame, "tf": tf, "ests": ests, "gts": gts, "pairs": pairs, "cfg": cfg, "stream": stream})
+            case = {"frame": frame, "tf": tf, "ests": ests, "gts": gts, "pairs": pairs, "cfg": cfg, "stream": stream}
+            if cfg_well_formed(cfg):
+                case["wide"] = widen(rng, cfg)        # the same results under widened bounds: nothing kept may be lost
+            case["rep"] = {"bounds": rng.choice(["tuple", "ndarray", "int", None, None, None]), "ignore": rng.choice(["tuple", None]), "extra": rng.random() < 0.15}
+            out.append(case)
         return out
 
     def run_impl(self, case):
@@ -610,7 +718,9 @@ class FilterResultsCorr(Corr):
         gts = [build_object(d, case["frame"]) for d in case["gts"]]
         ctor_tf = transforms if transforms is not None else build_transforms({"empty": True})
         results = [DynamicObjectWithPerceptionResult(ests[e], None if g is None else gts[g], transforms=ctor_tf) for e, g in case["pairs"]]
-        kw = build_cfg_kwargs(case["cfg"])
+        kw = build_cfg_kwargs(case["cfg"], case.get("rep"))
+        kw_before = repr(kw)
+        reg_before = registry_fingerprint(transforms)
         before = fingerprint(ests + gts)
         pairs_before = [(id(r.estimated_object), id(r.ground_truth_object)) for r in results]
         index = {id(r): i for i, r in enumerate(results)}
@@ -624,8 +734,15 @@ class FilterResultsCorr(Corr):
             return obs
         obs["kept"] = [index.get(id(r), -1) for r in kept]
         obs["again"] = [index.get(id(r), -1) for r in filter_object_results(kept, transforms=transforms, **kw)]
-        obs["mutated"] = (fingerprint(ests + gts) != before or kept is results
+        obs["mutated"] = (fingerprint(ests + gts) != before or kept is results or repr(kw) != kw_before
                           or [(id(r.estimated_object), id(r.ground_truth_object)) for r in results] != pairs_before)
+        obs["registry_mutated"] = registry_fingerprint(transforms) != reg_before
+        if case.get("wide") is not None:
+            try:
+                wk = filter_object_results(results, transforms=transforms, **build_cfg_kwargs(case["wide"], case.get("rep")))
+                obs["wide_kept"] = [index.get(id(r), -1) for r in wk]
+            except (TypeError, IndexError) as e:
+                obs["wide_kept"] = {"error": type(e).__name__}
         return obs
 
     def _res_list(self, case, obs):
@@ -638,8 +755,12 @@ class FilterResultsCorr(Corr):
         return llit(items)
 
     def coq_term(self, case, obs):
-        return (f"check_filter_results {cfg_lit(case['cfg'])} {blit(case['tf'] is not None)} {self._res_list(case, obs)} "
-                f"{expected_lit(obs['kept'])}")
+        t = (f"check_filter_results {cfg_lit(case['cfg'])} {blit(case['tf'] is not None)} {self._res_list(case, obs)} "
+             f"{expected_lit(obs['kept'])}")
+        if case.get("wide") is not None and "wide_kept" in obs:
+            t = (f"({t} && check_filter_results {cfg_lit(case['wide'])} {blit(case['tf'] is not None)} {self._res_list(case, obs)} "
+                 f"{expected_lit(obs['wide_kept'])})")
+        return t
 
     def coq_debug(self, case, obs):
         return (f"map_res (map (fun r => o_id (r_est r))) (filter_object_results {cfg_lit(case['cfg'])} "
@@ -647,7 +768,9 @@ class FilterResultsCorr(Corr):
 
     def oracle(self, case, obs):
         if obs.get("mutated"):
-            return "filter_object_results mutated its input or returned the input list itself"
+            return "filter_object_results mutated its input (objects, results, parameter lists) or returned the input list itself"
+        if obs.get("registry_mutated"):
+            return "filter_object_results changed the TransformDict it was given"
         m = (facts_vs_generator(case["ests"], obs["est_facts"], case["frame"], case["tf"], "estimate")
              or facts_vs_generator(case["gts"], obs["gt_facts"], case["frame"], case["tf"], "ground truth"))
         if m:
@@ -687,6 +810,13 @@ class FilterResultsCorr(Corr):
                         f"(documented: confidence is judged on the estimate only): gt={obs['gt_facts'][g]}")
             return (f"kept results {kept} but the documented criteria select {want}: result {k} (estimate {e}, ground truth {g}) "
                     f"est={obs['est_facts'][e]} gt={None if g is None else obs['gt_facts'][g]}")
+        wk = obs.get("wide_kept")
+        if wk is not None:
+            if isinstance(wk, dict):
+                return f"widened well-formed parameters raise {wk['error']}"
+            lost = [i for i in kept if i not in wk]
+            if lost:
+                return f"widening the bounds removed results {lost}: {case['cfg']} -> {case['wide']}"
         return None
 
     def nontrivial(self, case, obs):
@@ -700,10 +830,15 @@ class FilterResultsCorr(Corr):
                 "observed": {k: obs.get(k) for k in ("kept", "again", "mutated")}}
 
     def distribution(self, cases, obs):
-        d = {"frames": {}, "errors": {}, "results": 0, "kept": 0, "with_gt": 0, "dropped_for_gt_only": 0, "gtless_dropped_by_uuid": 0}
+        d = {"frames": {}, "errors": {}, "results": 0, "kept": 0, "with_gt": 0, "dropped_for_gt_only": 0, "gtless_dropped_by_uuid": 0,
+             "with_wide_cfg": 0, "kept_more_under_wide_cfg": 0, "tilted_ego_pose_cases": 0, "other_parameter_representations": 0}
         for c, o in zip(cases, obs):
             if "est_facts" not in o:
                 continue
+            d["with_wide_cfg"] += isinstance(o.get("wide_kept"), list)
+            d["kept_more_under_wide_cfg"] += isinstance(o.get("wide_kept"), list) and isinstance(o.get("kept"), list) and len(o["wide_kept"]) > len(o["kept"])
+            d["tilted_ego_pose_cases"] += c["tf"] is not None and not c["tf"].get("empty") and any(v != 0 for v in c["tf"]["quat"][1:3])
+            d["other_parameter_representations"] += bool(c.get("rep") and (c["rep"].get("bounds") or c["rep"].get("ignore")))
             key = c["frame"] + ("+tf" if c["tf"] is not None else "")
             d["frames"][key] = d["frames"].get(key, 0) + 1
             if isinstance(o["kept"], dict):
@@ -722,6 +857,204 @@ class FilterResultsCorr(Corr):
                     continue
                 if eo and k not in o["kept"]:
                     d["dropped_for_gt_only" if g is not None else "gtless_dropped_by_uuid"] += 1
+        return d
+
+
+# ------------------------------------------------------------------------------------------------
+# the second observation point: objects reaching matching inside PerceptionEvaluationManager._filter_objects
+# ------------------------------------------------------------------------------------------------
+MGR_TARGETS = ["car", "bicycle", "pedestrian", "motorbike"]      # = manager_common.TARGETS
+
+
+def mgr_cfg_json(over):
+    """evaluation-config overrides of the manager -> the JSON filter configuration of this module (what the documentation of the config
+    promises: a scalar is the bound of every target label, a list gives one bound per label)"""
+    n = len(MGR_TARGETS)
+
+    def per_label(v):
+        return None if v is None else (list(v) if isinstance(v, (list, tuple)) else [v] * n)
+
+    cfg = {"targets": [("autoware", t) for t in MGR_TARGETS]}
+    for js, key in (("max_x", "max_x_position"), ("max_y", "max_y_position"), ("max_dist", "max_distance"), ("min_dist", "min_distance"),
+                    ("min_pts", "min_point_numbers"), ("conf", "confidence_threshold")):
+        if over.get(key) is not None:
+            cfg[js] = per_label(over[key])
+    if over.get("target_uuids") is not None:
+        cfg["uuids"] = list(over["target_uuids"])
+    if over.get("ignore_attributes") is not None:
+        cfg["ignore"] = list(over["ignore_attributes"])
+    return cfg
+
+
+class ManagerCorr(Corr):
+    """add_frame_result on a real manager whose OWN filter configuration binds (range by x/y or by distance, point counts, confidence, ignored
+    attributes, target uuids), under a critical filter that removes nothing: the ground truths and the estimates that reach matching."""
+    name = "manager_filter"
+    header = HEADER
+    requires = ["Model/Filter.vo", "Base/CaseUtil.vo"]
+    shard = 60
+    parallel_min = 8
+
+    def cases(self, tier, rng):
+        out = []
+        n = 48 if tier == "quick" else 500
+        for i in range(n):
+            if i % 3 == 0:
+                frame, ego = "base_link", None
+                tf = rng.choice([{"empty": True}, EGO_POSES[3]])
+            else:
+                frame, ego = "map", rng.choice(ALL_POSES)
+                tf = ego
+            gts = [gen_obj(rng, frame, ego, True) for _ in range(rng.choice([0, 1, 3, 5, 8]))]
+            ests = [gen_obj(rng, frame, ego, False) for _ in range(rng.choice([0, 1, 3, 5, 8]))]
+            for d in gts:
+                if d.get("pts") is None:
+                    d["pts"] = 4
+            for k, d in enumerate(ests):          # half of the estimates next to a ground truth, so that matching pairs them
+                if gts and rng.random() < 0.5:
+                    g = rng.choice(gts)
+                    q = ego_to_frame(frame, ego, (g["ego_xy"][0] + rng.choice([0.0, 0.125, -0.25]), g["ego_xy"][1], 0.0))
+                    d["pos"], d["ego_xy"] = [q[0], q[1], g["pos"][2]], None
+                    d["label"], d["name"] = (g["label"], g["name"]) if g["label"] != "false_positive" else ("car", "car")
+            transforms = build_transforms(tf, warmed=False)
+            facts = [object_facts(build_object(d, frame), transforms) for d in gts + ests]
+            xs = sorted({abs(f["pos"][0]) for f in facts}) or [5.0]
+            ys = sorted({abs(f["pos"][1]) for f in facts}) or [5.0]
+            ds = sorted({f["pos"][2] for f in facts}) or [5.0]
+            if any(f["is_unknown"] for f in facts):
+                xs, ys, ds = ([v for v in l if v * 8 == int(v * 8)] or [5.0] for l in (xs, ys, ds))
+
+            def pick(vals, lo, hi):
+                r = rng.random()
+                return rng.choice(vals) if r < 0.45 else rng.choice(vals) + rng.choice([-0.125, 0.125]) if r < 0.6 else lat(rng, lo, hi)
+
+            def scalar_or_list(f):
+                return f() if rng.random() < 0.6 else [f() for _ in MGR_TARGETS]
+
+            over = {}
+            if i % 2 == 0:
+                over["max_x_position"] = scalar_or_list(lambda: pick(xs, 1, 30))
+                over["max_y_position"] = scalar_or_list(lambda: pick(ys, 1, 15))
+            else:
+                over["max_x_position"], over["max_y_position"] = None, None
+                over["max_distance"] = scalar_or_list(lambda: pick(ds, 5, 30))
+                over["min_distance"] = scalar_or_list(lambda: pick(ds, 0, 8))
+            over["min_point_numbers"] = rng.choice([[0] * 4, 0, [rng.choice([0, 1, 2, 3, 5, 6]) for _ in MGR_TARGETS], 3])
+            if rng.random() < 0.5:
+                over["confidence_threshold"] = scalar_or_list(lambda: rng.choice([rng.randint(0, 64) / 64.0, 0.5, 0.0]))
+            if rng.random() < 0.3:
+                over["target_uuids"] = rng.sample(UUIDS, rng.choice([0, 1, 2, 3, 3, 5]))
+            if rng.random() < 0.4:
+                over["ignore_attributes"] = rng.choice([[], ["cycle_state.without_rider"], ["vehicle_state.parked", "sitting"], ["child"], ["vehicle."],
+                                                        ["occlusion_state.most", "debris"], ["state"]])
+            if rng.random() < 0.3:
+                over["max_matchable_radii"] = rng.choice([2.5, [2.5, 1.5, 1.5, 2.5]])
+            out.append({"frame": frame, "tf": tf, "gts": gts, "ests": ests, "over": over})
+        return out
+
+    def run_impl(self, case):
+        from perception_eval.common.dataset import FrameGroundTruth
+        from perception_eval.common.schema import FrameID
+        from perception_eval.common.transform import HomogeneousMatrix
+        from harness.props import manager_common as MC
+
+        try:
+            mgr = MC.make_manager("detection", case["frame"], tag="c10", **case["over"])
+            tf = case["tf"]
+            mats = [] if tf.get("empty") else [HomogeneousMatrix(tuple(tf["pos"]), tuple(tf["quat"]), src=FrameID.BASE_LINK, dst=FrameID.MAP)]
+            gts = [build_object(d, case["frame"]) for d in case["gts"]]
+            ests = [build_object(d, case["frame"]) for d in case["ests"]]
+            fresh = build_transforms(tf, warmed=False)
+            obs = {"gt_facts": [object_facts(o, fresh) for o in gts], "est_facts": [object_facts(o, fresh) for o in ests]}
+            frame_gt = FrameGroundTruth(100, "0", list(gts), transforms=mats)
+            gt_list, est_list = frame_gt.objects, list(ests)
+            before = fingerprint(gts + ests)
+            wide = MC.critical_cfg(mgr, {"max_x_position_list": [100000.0] * 4, "max_y_position_list": [100000.0] * 4})
+            r = mgr.add_frame_result(100, frame_gt, est_list, wide, MC.passfail_cfg(mgr, 1.0))
+            gi = {id(o): i for i, o in enumerate(gts)}
+            ei = {id(o): i for i, o in enumerate(ests)}
+            obs["gt_kept"] = [gi.get(id(o), -1) for o in r.frame_ground_truth.objects]
+            obs["results"] = [[ei.get(id(x.estimated_object), -1), None if x.ground_truth_object is None else gi.get(id(x.ground_truth_object), -1)]
+                              for x in r.object_results]
+            obs["mutated"] = (fingerprint(gts + ests) != before or frame_gt.objects is not gt_list or [id(o) for o in gt_list] != [id(o) for o in gts]
+                              or [id(o) for o in est_list] != [id(o) for o in ests])
+            return obs
+        finally:
+            MC.cleanup_tmp()
+
+    def _cfgs(self, case):
+        cfg = mgr_cfg_json(case["over"])
+        return cfg, {k: v for k, v in cfg.items() if k != "conf"}
+
+    def coq_term(self, case, obs):
+        cfg, _ = self._cfgs(case)
+        gl = llit([obj_lit(i, f) for i, f in enumerate(obs["gt_facts"])])
+        t = f"check_filter_objects {cfg_lit(cfg)} true true {gl} {expected_lit(obs['gt_kept'])}"
+        if not cfg.get("uuids"):
+            # without a uuid filter every estimate that passes yields exactly one object result
+            el = llit([obj_lit(i, f) for i, f in enumerate(obs["est_facts"])])
+            t = f"({t} && check_filter_objects {cfg_lit(cfg)} true false {el} {expected_lit(sorted(e for e, _ in obs['results']))})"
+        return t
+
+    def oracle(self, case, obs):
+        if obs.get("mutated"):
+            return "add_frame_result changed the caller's ground-truth frame / estimate list or the objects in them"
+        cfg, gt_cfg = self._cfgs(case)
+        want_gt = [i for i, f in enumerate(obs["gt_facts"]) if doc_keep(f, gt_cfg, True, True)]
+        if obs["gt_kept"] != want_gt:
+            i = ([k for k in obs["gt_kept"] if k not in want_gt] + [k for k in want_gt if k not in obs["gt_kept"]])[0]
+            return (f"ground truths reaching matching under the manager configuration {case['over']}: {obs['gt_kept']}, the documented criteria select "
+                    f"{want_gt}: ground truth {i} facts={obs['gt_facts'][i] if i >= 0 else None}")
+        want_est = [j for j, f in enumerate(obs["est_facts"]) if doc_keep(f, cfg, False, True)]
+        got_est = sorted(e for e, _ in obs["results"])
+        if len(set(got_est)) != len(got_est) or any(e < 0 for e in got_est):
+            return f"object results {obs['results']} do not hold each surviving estimate exactly once"
+        if any(g is not None and g not in obs["gt_kept"] for _, g in obs["results"]):
+            return f"an object result is paired with a ground truth that the manager-level filter removed: {obs['results']} vs kept {obs['gt_kept']}"
+        if cfg.get("uuids"):
+            # documented (manager): with target uuids the results are filtered too -- every remaining result has a targeted ground truth
+            # (an FP-labelled ground truth passes every filter, the uuid one included)
+            bad = [[e, g] for e, g in obs["results"] if g is None or not doc_keep(obs["gt_facts"][g], {"uuids": cfg["uuids"]}, True, True)]
+            if bad:
+                return f"target_uuids={cfg['uuids']} but results without a targeted ground truth remain: {bad}"
+            extra = [e for e in got_est if e not in want_est]
+            if extra:
+                return f"estimate {extra[0]} reaches matching although the documented criteria drop it: facts={obs['est_facts'][extra[0]]} config {case['over']}"
+        elif got_est != want_est:
+            j = ([k for k in got_est if k not in want_est] + [k for k in want_est if k not in got_est])[0]
+            return (f"estimates reaching matching under the manager configuration {case['over']}: {got_est}, the documented criteria select {want_est}: "
+                    f"estimate {j} facts={obs['est_facts'][j]}")
+        return None
+
+    def nontrivial(self, case, obs):
+        n = len(case["gts"]) + len(case["ests"])
+        k = len(obs.get("gt_kept", [])) + len(obs.get("results", []))
+        return n >= 2 and 0 < k < n
+
+    def describe(self, case, obs):
+        return {"case": {"frame": case["frame"], "tf": case["tf"], "over": case["over"], "n_gt": len(case["gts"]), "n_est": len(case["ests"])},
+                "observed": {k: obs.get(k) for k in ("gt_kept", "results", "mutated")}}
+
+    def distribution(self, cases, obs):
+        d = {"frames": {}, "keys": {}, "gt": 0, "gt_kept": 0, "est": 0, "est_in_results": 0, "results_with_gt": 0, "gtless_results_dropped_by_uuid_filter": 0,
+             "scalar_bounds": 0, "per_label_bounds": 0}
+        for c, o in zip(cases, obs):
+            if "gt_kept" not in o:
+                continue
+            d["frames"][c["frame"]] = d["frames"].get(c["frame"], 0) + 1
+            for k, v in c["over"].items():
+                if v is not None:
+                    d["keys"][k] = d["keys"].get(k, 0) + 1
+                    if k.startswith(("max_", "min_d", "conf")) and k != "max_matchable_radii":
+                        d["per_label_bounds" if isinstance(v, list) else "scalar_bounds"] += 1
+            d["gt"] += len(c["gts"])
+            d["gt_kept"] += len(o["gt_kept"])
+            d["est"] += len(c["ests"])
+            d["est_in_results"] += len(o["results"])
+            d["results_with_gt"] += sum(1 for _, g in o["results"] if g is not None)
+            cfg = mgr_cfg_json(c["over"])
+            if cfg.get("uuids"):
+                d["gtless_results_dropped_by_uuid_filter"] += sum(1 for j, f in enumerate(o["est_facts"]) if doc_keep(f, cfg, False, True)) - len(o["results"])
         return d
 
 
@@ -813,12 +1146,21 @@ class C10(Prop):
                   "(GT-less results dropped iff a non-empty uuid list is targeted), monotone in every bound incl. the mean bounds, FP label "
                   "always kept, the no-position branch skips bounds and point count, error branches of malformed parameters. The model is "
                   "compared with the real filter_objects / filter_object_results on 3D objects in BASE_LINK, in MAP with rational ego poses "
-                  "through TransformDict, 2D objects without position, with values exactly on every bound.")
+                  "through TransformDict (yaw-only and tilted), 2D objects without and with a 3D position, mixed-frame lists, with values exactly on every bound, and with the objects "
+                  "that reach matching inside PerceptionEvaluationManager._filter_objects (ground truths and estimates of add_frame_result under a binding manager configuration).")
     level_note = ("Trusted: Coq kernel+vm_compute; the facts fed to the model (label id, is_fp/is_unknown, name/attributes, confidence, uuid, "
                   "ego-relative x/y/distance after transforms.transform / get_distance_bev, point count) are read through public getters; "
                   "that these numbers are the right geometry is C07/C18. np.mean is modelled as the exact rational mean.")
     rule = ("streams typical/boundary/malformed/traffic-light x frames base_link / base_link+transforms / map+pose / map without transforms / 2D; "
-            "non-trivial = an exception, or a list of >=2 objects of which some but not all are kept")
+            "non-trivial = an exception, or a list of >=2 objects of which some but not all are kept; "
+            "ego poses: 6 yaw-only + 4 with roll / pitch (rational unit quaternions); 2D objects also WITH a 3D position given in the camera frame and a CAM_FRONT->BASE_LINK entry "
+            "(range checks apply, no point count); lists of mixed frame (BASE_LINK and MAP objects in one list, transforms given); positions as tuple / list / numpy array / "
+            "Python ints; per-label bound lists as list / tuple / numpy array / with ints, the ignore list as list / tuple, the manager's extra keys (max_matchable_radii, "
+            "uuid_matching_first) passed through **kwargs; filter_object_results also under a widened configuration (nothing kept may be lost); parameter lists and the "
+            "TransformDict fingerprinted before / after in both filters; manager_filter: 48 (quick) / 500 real managers whose OWN configuration binds (max_x/max_y or "
+            "max/min distance as scalar or per-label list, min_point_numbers, confidence_threshold, ignore_attributes, target_uuids, max_matchable_radii) run add_frame_result "
+            "under a critical filter that removes nothing: the ground truths and estimates reaching matching must be the documented selection, with target_uuids no result "
+            "without a targeted ground truth remains, the caller's frame / lists are unchanged")
     assumptions = ["well-formed parameters for the exact characterisation (every per-label list as long as a non-empty target list)",
                    "ground truth carries a point count when a point-count bound is configured",
                    "np.mean of the bound list = exact rational mean (inputs on the k/8 lattice)"]
@@ -827,7 +1169,7 @@ class C10(Prop):
     trusted_base_extra = ["label ids assigned by harness/props/C10.py:label_id (UNKNOWN/FP fixed, checked against is_fp()/is_unknown() on every object)"]
 
     def correspondences(self):
-        return [FilterObjectsCorr(), FilterResultsCorr()]
+        return [FilterObjectsCorr(), FilterResultsCorr(), ManagerCorr()]
 
 
 READY = True
